@@ -49,6 +49,8 @@ Inductive ty :=
 | TTup (ts: list ty)                     (* Tuple[t1..tn], NamedTuple, TypedDict-like records *)
 | TMap (o: origin) (kt vt: ty)           (* Dict/OrderedDict/Mapping/DefaultDict/Counter *)
 | TDC (c: nat)                           (* dataclass number c of the class table *)
+| TWrap (t: ty)                          (* Final[t], Annotated[t, ..], NewType over t, PEP 695 alias of t,
+                                            Required/NotRequired/ReadOnly[t]: unwrapped and re-dispatched *)
 | TUnion (ts: list ty).                  (* Union / constrained TypeVar; Optional[Union[..]] = TOpt (TUnion ..).
                                             Modelled on the decode side; on the encode side only the
                                             "all members are the identity" test is modelled and no value
@@ -142,6 +144,7 @@ Section Compile.
     | TTup ts => ITup (map cp ts)
     | TMap o kt vt => map_expr N o (cp kt) (cp vt)
     | TDC c => ICall c (hsup && (E.(e_ct) c).(c_sup))
+    | TWrap t' => cp t'                       (* pack_final / Registry.get (Annotated) / NewType / alias *)
     | TUnion ts => if forallb is_id (map cp ts) then IId else IUnion   (* pack_union: a single "value" packer *)
     end.
 End Compile.
@@ -273,6 +276,7 @@ Section Conf.
           | VObj c' _ fs =>
               Nat.eqb c c' && zip_all conforms (E.(e_ct) c').(c_fields) fs
           | _ => false end
+      | TWrap t' => on_ty t'
       | TUnion _ => false
       end.
 End Conf.
@@ -331,6 +335,7 @@ Section ConvFree.
     | TSeq o t' => inN N o && conv_free t'
     | TMap o kt vt => inN N o && conv_free kt && conv_free vt
     | TTupV _ | TTup _ | TDC _ => false
+    | TWrap t' => conv_free t'
     | TUnion ts => forallb conv_free ts
     end.
 
@@ -380,6 +385,7 @@ Section ByRef.
               let N' := effN E call' k in
               zip_app (fun x t' => byref x call' N' k.(c_sup) t') k.(c_fields) fs
           | _ => [] end
+      | TWrap t' => on_ty t'
       | TUnion _ => []
       end.
 End ByRef.
@@ -401,8 +407,9 @@ Inductive uir :=
    exact type, a mapping is not iterated as a list (.items()), a list has no .items() *)
 Definition wcls (w: lv) : nat :=
   match w with VAtom _ | VLeaf _ => 0 | VNone => 1 | VSeq _ _ _ => 2 | VMap _ _ _ => 3 | VOpq _ => 4 | VObj _ _ _ => 5 end.
-Definition tcls (t: ty) : nat :=
+Fixpoint tcls (t: ty) : nat :=
   match t with
+  | TWrap t' => tcls t'
   | TAtom | TLeaf _ => 0
   | TOpt _ => 1
   | TSeq _ _ | TTupV _ | TTup _ => 2
@@ -446,6 +453,7 @@ Fixpoint cu (t: ty) : uir :=
   | TTup ts => UTup (map cu ts)
   | TMap o kt vt => UMap (map_kind o) (cu kt) (cu vt)
   | TDC c => UCall c
+  | TWrap t' => cu t'
   | TUnion ts => UUnion (map (fun t' => (tcls t', cu t')) ts)
   end.
 
@@ -519,6 +527,7 @@ Section RunUnpack.
           | VMap _ _ kvs =>
               zip_all (fun kv t' => match kv with (_, x) => wconforms x t' end) (E.(e_ct) c).(c_fields) kvs
           | _ => false end
+      | TWrap t' => on_ty t'
       | TUnion ts => pick (fun t' => cls_fits (tcls t') w) on_ty false ts
       end.
 
@@ -544,6 +553,7 @@ Section RunUnpack.
           | VMap _ _ kvs =>
               zip_app (fun kv t' => match kv with (_, x) => anyref x t' end) (E.(e_ct) c).(c_fields) kvs
           | _ => [] end
+      | TWrap t' => on_ty t'
       | TUnion ts => pick (fun t' => cls_fits (tcls t') w) on_ty [] ts
       end.
 End RunUnpack.
